@@ -27,7 +27,9 @@ def seeds_table():
             continue
         m = json.load(open(mp))
         caught = ', '.join(m.get('caught_by_quick_checks') or []) or '—'
-        rows.append('| %s | %s | %s | %s |' % (os.path.basename(d), cell(m.get('summary'), 230), caught, cell(m.get('first_report') or m.get('check_report'), 260)))
+        first, now = m.get('first_report'), m.get('check_report')
+        report = now if not first or first == now else ('at first: %s; after the extension: %s' % (first, now))
+        rows.append('| %s | %s | %s | %s |' % (os.path.basename(d), cell(m.get('summary'), 230), caught, cell(report, 300)))
     return '\n'.join(rows)
 
 def put(text, name, body):
